@@ -30,6 +30,8 @@ enum Perm {
     Transpose(usize),
     /// rotate left by k
     Rotate(usize),
+    /// bank `from` arrives directly after bank `after` (all other banks keep their order)
+    MoveAfter { from: usize, after: usize },
 }
 
 #[derive(Clone, Debug, Serialize, Deserialize, PartialEq)]
@@ -80,6 +82,16 @@ fn permute(banks: &BankList, p: &Perm) -> BankList {
         Perm::Rotate(k) => {
             if n > 0 {
                 v.rotate_left(k % n);
+            }
+        }
+        Perm::MoveAfter { from, after } => {
+            if n >= 2 {
+                let (from, after) = (from % n, after % n);
+                if from != after {
+                    let b = v.remove(from);
+                    let a = if after > from { after - 1 } else { after };
+                    v.insert(a + 1, b);
+                }
             }
         }
     }
@@ -190,7 +202,7 @@ impl Check for C11Check {
             3 | 4 | 5 => Kind::EvFault {
                 base: BaseEvent { run: *r.pick(&[u32::MAX, u32::MAX, 11084, 9277]), seed: r.next_u64(), n_wires: *r.pick(&[1usize, 3, 9, 24, 40, 80, 256]), n_pad_msgs: r.usize(0, 4), long_only: r.chance(1, 2), pad_start: None, suppressed_only: false },
                 // duplicates (slots 3..=7) and pad faults favoured
-                slot: *r.pick(&[3usize, 4, 5, 6, 7, 9, 13, 14, 15, 16, 0, 2, 18, 100, 29, 30, 31, 29, 30, 31, 32, 33, 34, 34, 35]),
+                slot: *r.pick(&[3usize, 4, 5, 6, 7, 9, 13, 14, 15, 16, 0, 2, 18, 100, 29, 30, 31, 29, 30, 31, 32, 33, 34, 34, 35, 36, 36, 13]),
             },
             6 => Kind::Extreme { wires: *r.pick(&[2usize, 9, 40]), wire_mode: r.below(8) as u8, wire_len: *r.pick(&[101usize, 130, 300]), pad_msgs: r.usize(0, 3), pad_mode: r.below(8) as u8, pad_req: *r.pick(&[101u16, 120, 300]), pad_channels: *r.pick(&[3usize, 20, 79]), seam: r.chance(1, 2) },
             _ => Kind::Fwd { tracks: 2, noise: 0.0, amp_scale: *r.pick(&[0.2, 3.0]) },
@@ -227,7 +239,7 @@ impl Check for C11Check {
             let kind = if rp.chance(4, 5) {
                 Kind::EvFault {
                     base: BaseEvent { run: *rp.pick(&[u32::MAX, u32::MAX, 11084, 9277]), seed: rp.next_u64(), n_wires: *rp.pick(&[1usize, 3, 9]), n_pad_msgs: rp.usize(1, 4), long_only: rp.chance(1, 2), pad_start: None, suppressed_only: false },
-                    slot: rp.usize(0, 36),
+                    slot: rp.usize(0, 37),
                 }
             } else {
                 Kind::Extreme { wires: 2, wire_mode: rp.below(8) as u8, wire_len: 130, pad_msgs: rp.usize(1, 3), pad_mode: rp.below(8) as u8, pad_req: *rp.pick(&[101u16, 300, 511]), pad_channels: *rp.pick(&[3usize, 20, 79]), seam: false }
@@ -256,6 +268,28 @@ impl Check for C11Check {
                 trials.push(Trial { perm: Perm::Transpose(i), hash_key: key ^ (i as u64 % 3), twice: false, after_other: false, clock: None });
             }
             stats.probe("adjacent_transpositions_exhaustive");
+        }
+        // one bank arrives right behind another one: every (bank, predecessor) pair for small
+        // events, a seeded sample otherwise
+        if scn.all_transpositions && banks.len() >= 3 {
+            let key = trials.first().map(|t| t.hash_key).unwrap_or(1);
+            let n = banks.len();
+            if n <= 32 {
+                for from in 0..n {
+                    for after in 0..n {
+                        if from != after && from != after + 1 {
+                            trials.push(Trial { perm: Perm::MoveAfter { from, after }, hash_key: key ^ ((from + after) as u64 % 3), twice: false, after_other: false, clock: None });
+                        }
+                    }
+                }
+                stats.probe("one_bank_moved_behind_another_exhaustive");
+            } else {
+                let mut rm = Rng::new(scn.seed ^ 0x6d6f_7665);
+                for _ in 0..120 {
+                    trials.push(Trial { perm: Perm::MoveAfter { from: rm.usize(0, n - 1), after: rm.usize(0, n - 1) }, hash_key: key ^ rm.below(3), twice: false, after_other: false, clock: None });
+                }
+                stats.probe("one_bank_moved_behind_another_sampled");
+            }
         }
         let mut viol: Vec<Violation> = Vec::new();
         let mut first: Option<(u64, String, Trial)> = None;
